@@ -31,7 +31,7 @@ def check(tier, replay):
         mc=[("MC_SDArray.tla", "MC_SDArray_chunk.cfg")],
         gens=[("every transition x every storage configuration, histories <= 2 calls", "Gen_SDArray.tla", "Gen_SDArray_layouts3.cfg", "cover", {"sample": 40000, "quick_only": True}),
               ("every transition x every storage configuration, histories <= 3 calls", "Gen_SDArray.tla", "Gen_SDArray_layouts.cfg", "cover", {"thorough_only": True, "timeout": 3000}),
-              ("simulate depth 12 under chunked/compressed configurations", "Gen_SDArray.tla", "Gen_SDArray_laysim.cfg", "sim", {"num_quick": 60, "num": 2500, "depth": 13, "sample": 4000})],
+              ("simulate depth 12 under chunked/compressed configurations", "Gen_SDArray.tla", "Gen_SDArray_laysim.cfg", "sim", {"num_quick": 60, "num": 1500, "depth": 13, "sample": 4000, "timeout": 4000})],
         mutators={"Create", "Write", "WriteChunk", "Reopen"}, need_actions=["Info", "Reopen"],
         sig_fn=c03.both, tv_quick=10000,
         assumptions=["non-chunked compressed and n-bit datasets are written in full from their start (the precondition stated in C05)",
